@@ -325,6 +325,10 @@ func oracleC01(r *Result) {
 				r.violate("C01.a success-for-another-request", "C01:callback:success:looked-up-id-differs-from-named-id",
 					"status Success only when the stored request named by the caller exists and reports Done",
 					fmt.Sprintf("caller named %q, the handler looked up %q: %s", t.Sent.CallbackIDs, c.Args[0], replySummary(t)), t.ID)
+			} else if c := firstCall(t, "AuthRequestByID"); c != nil && c.CtxIssuer != t.Sent.IdPIssuer && !isShadowless(t) {
+				r.violate("C01.a success-for-another-tenants-request", "C01:callback:success:request-looked-up-under-another-issuer",
+					"status Success only when the stored request named by the caller exists and reports Done (a caller on one host names that host's request)",
+					fmt.Sprintf("request arrived for issuer %q, the stored request was looked up under issuer %q: %s", t.Sent.IdPIssuer, c.CtxIssuer, replySummary(t)), t.ID)
 			} else if len(sf) > 0 {
 				r.violate("C01.a success-despite-failure", "C01:callback:success-after-fault:"+faultOpKind(sf[0]),
 					"a user-info lookup or signing failure yields a non-Success reply",
@@ -358,3 +362,6 @@ func contains(xs []string, x string) bool {
 
 // faultOpKind turns "Op:kind" into a stable class string.
 func faultOpKind(f string) string { return f }
+
+// isShadowless: placeholder for requests whose issuer the model cannot name (none at present).
+func isShadowless(t *Task) bool { return t.Sent == nil || t.Sent.IdPIssuer == "" }
